@@ -8,7 +8,10 @@ from .. import common, driver, gen, impl
 from .. import framework as fw
 
 GEN_SECTIONS = ["Tables", "Regexes", "Unicode"]
+# arithmetic leaf functions whose ASTs are dumped from /repo and proved equal to the hand model (lean/Chartparse/Tie/<X>.lean)
+LEAVES = {'Nps': 'nps', 'Secs': 'secs'}
 TRUSTED = [
+    "leaf ties: Py.evalBody (embedded Python subset, validated against CPython on random expressions and against the real leaf functions every run) + the AST dump",
     "Lean 4 kernel; axioms ⊆ {propext, Classical.choice, Quot.sound}",
     "hand model of Chart.notes_per_second / _notes_per_second (bound resolution, closed count, int/int and int/float "
     "divisions in binary64); tied by differential execution with the value as an exact ratio",
@@ -27,8 +30,53 @@ def slice(ctx: fw.Ctx) -> fw.Outcome:
     prof = gen.Profile(max_tracks=2, max_groups=10, garbage=0.0, unknown_sections=0.0, meta_fields=0.0, exotic_pad=0.0, exotic_digits=0.0, max_tempo=4)
     reqs, meta = [], []
     ins, dif = impl.enums()
+    def evaluate(c, be, real, nts, R, i, d, form, args, sb, eb, history=None):
+        try:
+            v = c.notes_per_second(ins[i], dif[d], *args)
+            x = impl.rat(float(v))
+        except Exception as ex:  # noqa: BLE001
+            x = impl.err_name(ex)
+        # truth from the real chart's own note times (C01 settles the times themselves)
+        if real is None or not real.note_events:
+            want = "E ValueError"
+        else:
+            def bound(v, default):
+                if v is None:
+                    return default
+                return be.timestamp_at_tick_no_optimize_return(v) if isinstance(v, int) else v
+            try:
+                S = bound(args[0] if len(args) > 0 else None, timedelta(0))
+                E = bound(args[1] if len(args) > 1 else None, max(n.end_timestamp for n in real.note_events))
+                D = (E - S) // US
+                if D <= 0:
+                    want = "E ValueError"
+                else:
+                    cnt = sum(1 for t in nts if S <= t <= E)
+                    want = Fraction(cnt * 10**6, D)
+            except ValueError:
+                want = "E ValueError"
+        rp = {"op": "nps", "text": R.text, "i": i, "d": d, "start": sb, "end": eb}
+        if history:
+            rp["history"] = history  # calls made earlier in the same process, replayed first
+        inside = isinstance(want, Fraction) and want > 0
+        out.case(fw.h(rp), inside, {"call": [i, d, sb, eb], "value": x} if inside else None, tags=[form, "err" if x.startswith("E") else "value"])
+        reqs.append(f"nps {driver.cps(R.text)} {i} {d} {sb} {eb}")
+        meta.append((rp, x))
+        if isinstance(want, str):
+            if x != want:
+                out.violation("nps-" + fw.h(rp), f"notes_per_second({i},{d},{sb},{eb}) = {x}, promised {want}", rp, observed=x, promised=want)
+        else:
+            if x.startswith("E "):
+                out.violation("nps-" + fw.h(rp), f"notes_per_second({i},{d},{sb},{eb}) raised {x}, promised {float(want):.6f}", rp, observed=x, promised=str(want))
+            else:
+                got = Fraction(x)
+                if abs(got - want) > want * Fraction(3, 2**53):
+                    out.violation("nps-" + fw.h(rp), f"notes_per_second({i},{d},{sb},{eb}) = {float(got):.9f}, count/seconds = {float(want):.9f}",
+                                  {**rp, "want": str(want)}, observed=str(got), promised=str(want))
+
     for _ in range(ctx.n(60, 6000)):
         src = gen.rand_src(rng, prof)
+        tick_calls = []
         if rng.random() < 0.15 and src.tracks:
             src.tracks[0].groups = []
         if rng.random() < 0.2:  # very slow tempo: intervals of a day and more
@@ -68,46 +116,23 @@ def slice(ctx: fw.Ctx) -> fw.Outcome:
                 ta = rng.choice([timedelta(0), timedelta(seconds=rng.randint(0, 100))])
                 tb = ta + timedelta(days=rng.choice([1, 1, 2, 3]), seconds=rng.choice([0, 0, 5, 4000]))
                 args, sb, eb = (ta, tb), f"u{ta // US}", f"u{tb // US}"
-            try:
-                v = c.notes_per_second(ins[i], dif[d], *args)
-                x = impl.rat(float(v))
-            except Exception as ex:  # noqa: BLE001
-                x = impl.err_name(ex)
-            # truth from the real chart's own note times (C01 settles the times themselves)
-            if real is None or not real.note_events:
-                want = "E ValueError"
-            else:
-                def bound(v, default):
-                    if v is None:
-                        return default
-                    return be.timestamp_at_tick_no_optimize_return(v) if isinstance(v, int) else v
-                try:
-                    S = bound(args[0] if len(args) > 0 else None, timedelta(0))
-                    E = bound(args[1] if len(args) > 1 else None, max(n.end_timestamp for n in real.note_events))
-                    D = (E - S) // US
-                    if D <= 0:
-                        want = "E ValueError"
-                    else:
-                        cnt = sum(1 for t in nts if S <= t <= E)
-                        want = Fraction(cnt * 10**6, D)
-                except ValueError:
-                    want = "E ValueError"
-            rp = {"op": "nps", "text": R.text, "i": i, "d": d, "start": sb, "end": eb}
-            inside = isinstance(want, Fraction) and want > 0
-            out.case(fw.h(rp), inside, {"call": [i, d, sb, eb], "value": x} if inside else None, tags=[form, "err" if x.startswith("E") else "value"])
-            reqs.append(f"nps {driver.cps(R.text)} {i} {d} {sb} {eb}")
-            meta.append((rp, x))
-            if isinstance(want, str):
-                if x != want:
-                    out.violation("nps-" + fw.h(rp), f"notes_per_second({i},{d},{sb},{eb}) = {x}, promised {want}", rp, observed=x, promised=want)
-            else:
-                if x.startswith("E "):
-                    out.violation("nps-" + fw.h(rp), f"notes_per_second({i},{d},{sb},{eb}) raised {x}, promised {float(want):.6f}", rp, observed=x, promised=str(want))
-                else:
-                    got = Fraction(x)
-                    if abs(got - want) > want * Fraction(3, 2**53):
-                        out.violation("nps-" + fw.h(rp), f"notes_per_second({i},{d},{sb},{eb}) = {float(got):.9f}, count/seconds = {float(want):.9f}",
-                                      {**rp, "want": str(want)}, observed=str(got), promised=str(want))
+            evaluate(c, be, real, nts, R, i, d, form, args, sb, eb)
+            if form in ("tick", "ticks"):
+                tick_calls.append((i, d, form, args, sb, eb))
+        # the same tick bounds on a twin chart (same notes, every tempo doubled) in the same process: an answer remembered
+        # from the first chart would be wrong here
+        if tick_calls:
+            import copy
+            src2 = copy.deepcopy(src)
+            src2.tempo = [(t, n * 2) for t, n in src2.tempo]
+            R2 = gen.render(src2, rng, prof, garbage=False)
+            c2, e2, _ = impl.parse(R2.text)
+            if c2 is not None:
+                for (i, d, form, args, sb, eb) in tick_calls:
+                    real2 = c2.instrument_tracks.get(ins[i], {}).get(dif[d])
+                    nts2 = [n.timestamp for n in real2.note_events] if real2 else []
+                    evaluate(c2, c2.sync_track.bpm_events, real2, nts2, R2, i, d, form + "-twin", args, sb, eb,
+                             history=[{"text": R.text, "i": i, "d": d, "start": sb, "end": eb}])
     mod = driver.run_parallel(reqs)
     for (rp, x), m in zip(meta, mod):
         out.traces += 1
@@ -117,6 +142,8 @@ def slice(ctx: fw.Ctx) -> fw.Outcome:
 
 
 def replay(ctx, data):
+    for hcall in data.get("history", []):
+        replay(ctx, hcall)
     c, e, _ = impl.parse(data["text"])
     if c is None:
         return True, impl.err_name(e)
